@@ -282,6 +282,54 @@ type Visit struct {
 	Val abs.Value
 }
 
+// readBack reads the value just written through the SAME iterator, without moving it: "every read ... API reflects the new values".
+func readBack(it *simdjson.Iter, o Op) error {
+	fail := func(api string, got interface{}, err error) error {
+		return fmt.Errorf("after a successful %s the same iterator's %s gives %v (err %v)", o, api, got, err)
+	}
+	switch o.SetK {
+	case "null":
+		if it.Type() != simdjson.TypeNull {
+			return fail("Type", it.Type(), nil)
+		}
+	case "bool":
+		if v, err := it.Bool(); err != nil || v != o.X.B {
+			return fail("Bool", v, err)
+		}
+	case "int":
+		want, _ := strconv.ParseInt(string(o.X.Bytes()), 10, 64)
+		if v, err := it.Int(); err != nil || v != want {
+			return fail("Int", v, err)
+		}
+	case "uint":
+		want, _ := strconv.ParseUint(string(o.X.Bytes()), 10, 64)
+		if v, err := it.Uint(); err != nil || v != want {
+			return fail("Uint", v, err)
+		}
+	case "float":
+		want, _ := strconv.ParseFloat(string(o.X.Bytes()), 64)
+		if v, err := it.Float(); err != nil || math.Float64bits(v) != math.Float64bits(want) {
+			return fail("Float", v, err)
+		}
+	case "str":
+		want := o.X.Bytes()
+		if v, err := it.StringBytes(); err != nil || !bytes.Equal(v, want) {
+			return fail("StringBytes", fmt.Sprintf("%q", v), err)
+		}
+		if v, err := it.String(); err != nil || v != string(want) {
+			return fail("String", fmt.Sprintf("%q", v), err)
+		}
+		if v, err := it.StringCvt(); err != nil || v != string(want) {
+			return fail("StringCvt", fmt.Sprintf("%q", v), err)
+		}
+		if v, err := it.Interface(); err != nil || v != string(want) {
+			return fail("Interface", v, err)
+		}
+	}
+	// (MarshalJSON is not asked of this iterator: its scope may be the rest of an enclosing array; marshalAt covers scoped ones)
+	return nil
+}
+
 // ApplySet performs a set operation through an iterator obtained earlier.
 func ApplySet(it *simdjson.Iter, o Op) (refused bool, err error) {
 	defer func() {
@@ -317,6 +365,11 @@ func ApplySet(it *simdjson.Iter, o Op) (refused bool, err error) {
 		serr = it.SetStringBytes(o.X.Bytes())
 	default:
 		return false, fmt.Errorf("unknown set kind %s", o.SetK)
+	}
+	if serr == nil {
+		if rerr := readBack(it, o); rerr != nil {
+			return false, rerr
+		}
 	}
 	return serr != nil, nil
 }
@@ -363,6 +416,11 @@ func Apply(pj *simdjson.ParsedJson, o Op, readVal func(it *simdjson.Iter) (abs.V
 			serr = it.SetStringBytes(o.X.Bytes())
 		default:
 			return false, nil, fmt.Errorf("unknown set kind %s", o.SetK)
+		}
+		if serr == nil {
+			if rerr := readBack(it, o); rerr != nil {
+				return false, nil, rerr
+			}
 		}
 		return serr != nil, nil, nil
 	case "delA":
